@@ -214,10 +214,20 @@ def packAll (w : Nat) (fromStr : Bool) (radix log2r bdpd : Nat) :
       | none => none
       | some ds => some (d :: ds)
 
-/-- the `2 | 4 | 16 | 256 =>` arm of `from_buf_radix_internal`.
-    DEFECT KEPT (F2): overflow is decided from the digit *count* `len`, so most-significant zero
-    digits beyond the capacity give `PosOverflow`. -/
-def pow2Arm (w n : Nat) (fromStr be : Bool) (buf : List Nat) (radix off len : Nat) : PRes :=
+/-- the loop at the top of the `2 | 4 | 16 | 256 =>` arm (repair of F2, /repo commit e0b6218):
+    `while input_digits_len > 0 { if byte_to_digit(buf[idx]) != 0 { break; } input_digits_len -= 1; }`
+    with `idx = buf.len() - input_digits_len` (BE) / `input_digits_len - 1` (LE).  The argument is
+    the most-significant-first view of the `input_digits_len` digit bytes; the result is the new
+    `input_digits_len` (= length of the view that is left when the loop stops). -/
+def skipZerosLoop (fromStr : Bool) : List Nat → Nat
+  | [] => 0
+  | b :: bs => if byteToDigit fromStr b != 0 then (b :: bs).length else skipZerosLoop fromStr bs
+
+/-- the `2 | 4 | 16 | 256 =>` arm of `from_buf_radix_internal` (`len0` = `input_digits_len` on entry).
+    Overflow is decided from the digit count after the most significant zero digits are skipped. -/
+def pow2Arm (w n : Nat) (fromStr be : Bool) (buf : List Nat) (radix off len0 : Nat) : PRes :=
+  let msf := if be then buf.drop (buf.length - len0) else (buf.take len0).reverse
+  let len := skipZerosLoop fromStr msf
   let log2r := ilog2 radix
   let bdpd := w / log2r
   let full := len / bdpd
@@ -239,41 +249,6 @@ def fromBufRadixInternal (w n : Nat) (fromStr be : Bool) (buf : List Nat) (radix
   let len := buf.length - off
   if radix == 2 || radix == 4 || radix == 16 || radix == 256 then
     .ok (pow2Arm w n fromStr be buf radix off len)
-  else generalArm w n fromStr be buf radix off len
-
-/-! ### model after the planned fix: commit (F2)
-
-  Rust patch (first lines of the `2 | 4 | 16 | 256 =>` arm of `from_buf_radix_internal`,
-  `src/buint/radix.rs`), nothing else changes:
-  ```
-  // most-significant zero digits do not count towards the capacity (one digit is always kept)
-  let mut input_digits_len = input_digits_len;
-  while input_digits_len > 1 {
-      let idx = if BE { buf.len() - input_digits_len } else { input_digits_len - 1 };
-      if Self::byte_to_digit::<FROM_STR>(buf[idx]) != 0 { break; }
-      input_digits_len -= 1;
-  }
-  ```
--/
-/-- the added loop: walks the most-significant-first view, returns the reduced `input_digits_len` -/
-def skipZerosLoop (fromStr : Bool) : List Nat → Nat → Nat
-  | [], len => len
-  | b :: bs, len =>
-    if len > 1 then
-      if byteToDigit fromStr b != 0 then len else skipZerosLoop fromStr bs (len - 1)
-    else len
-
-def pow2ArmFixed (w n : Nat) (fromStr be : Bool) (buf : List Nat) (radix off len : Nat) : PRes :=
-  let msf := if be then buf.drop (buf.length - len) else (buf.take len).reverse
-  pow2Arm w n fromStr be buf radix off (skipZerosLoop fromStr msf len)
-
-def fromBufRadixInternalFixed (w n : Nat) (fromStr be : Bool) (buf : List Nat) (radix : Nat)
-    (leadingSign : Bool) : Outcome PRes :=
-  if leadingSign && buf.length == 1 then .ok (.err .invalidDigit) else
-  let off := if leadingSign then 1 else 0
-  let len := buf.length - off
-  if radix == 2 || radix == 4 || radix == 16 || radix == 256 then
-    .ok (pow2ArmFixed w n fromStr be buf radix off len)
   else generalArm w n fromStr be buf radix off len
 
 /-! ### `from_le_slice` / `from_be_slice` (`src/buint/endian.rs`), used for radix 256 -/
@@ -341,22 +316,6 @@ def fromRadixLe (w n : Nat) (buf : List Nat) (radix : Nat) : Outcome (Option (Li
 /-- `<BUint as FromStr>::from_str` -/
 def fromStr (w n : Nat) (src : List Nat) : Outcome PRes := fromStrRadix w n src 10
 
-/-- model after the planned fix: commit (F2) -/
-def fromStrRadixFixed (w n : Nat) (src : List Nat) (radix : Nat) : Outcome PRes :=
-  if !inRange radix 36 then .panic else
-  if src.isEmpty then .ok (.err .empty) else
-  let leadingPlus := src.head? == some 43
-  fromBufRadixInternalFixed w n true true src radix leadingPlus
-def fromRadixBeFixed (w n : Nat) (buf : List Nat) (radix : Nat) : Outcome (Option (List Nat)) :=
-  if !inRange radix 256 then .panic else
-  if buf.isEmpty then .ok (some (zero n)) else
-  if radix == 256 then .ok (fromBeSlice w n buf) else
-  (fromBufRadixInternalFixed w n false true buf radix false).map PRes.toOption
-def fromRadixLeFixed (w n : Nat) (buf : List Nat) (radix : Nat) : Outcome (Option (List Nat)) :=
-  if !inRange radix 256 then .panic else
-  if buf.isEmpty then .ok (some (zero n)) else
-  if radix == 256 then .ok (fromLeSlice w n buf) else
-  (fromBufRadixInternalFixed w n false false buf radix false).map PRes.toOption
 end UI
 
 /-! ### `BUint` printing API -/
@@ -507,14 +466,6 @@ def fromRadixLe (w n : Nat) (buf : List Nat) (radix : Nat) := UI.fromRadixLe w n
 
 /-- `<BInt as FromStr>::from_str` -/
 def fromStr (w n : Nat) (src : List Nat) : Outcome PRes := fromStrRadix w n src 10
-
-/-- model after the planned fix: commit (F2) -/
-def fromStrRadixFixed (w n : Nat) (src : List Nat) (radix : Nat) : Outcome PRes :=
-  if !inRange radix 36 then .panic else
-  if src.isEmpty then .ok (.err .empty) else
-  let negative := src.head? == some 45
-  let leadingSign := negative || src.head? == some 43
-  (fromBufRadixInternalFixed w n true true src radix leadingSign).bind (finishParse w n negative)
 
 /-- `BInt::to_radix_le` / `to_radix_be`: of `self.bits` -/
 def toRadixLe (w : Nat) (x : List Nat) (radix : Nat) := UI.toRadixLe w x radix
